@@ -802,6 +802,8 @@ def _is_generator(fn):
 
 def _is_local(fn, name):
     key = id(fn)
+    if key in _local_cache and _local_cache[key][0] is not fn:
+        del _local_cache[key]  # the id of a collected node was reused
     if key not in _local_cache:
         names = set()
         stack = list(fn.body)
@@ -814,8 +816,8 @@ def _is_local(fn, name):
             if isinstance(n, (ast.ListComp, ast.SetComp, ast.DictComp, ast.GeneratorExp)):
                 continue
             stack.extend(ast.iter_child_nodes(n))
-        _local_cache[key] = names
-    return name in _local_cache[key]
+        _local_cache[key] = (fn, names)
+    return name in _local_cache[key][1]
 
 
 def _scalar(v):
